@@ -64,6 +64,13 @@ def run(ctx):
         r = ctx.tlc(mod, cfg, timeout=300, deadlock=False, name="%s/mutant (%s)" % (mod, what))
         if r.ok or r.violated != "NoWedge":
             raise vlib.Infra("spec mutant '%s' of %s does not wedge (violated=%s): mechanism vacuous" % (what, mod, r.violated))
+    # stream / streamer protocol at mutex granularity
+    ctx.tlc_expect_ok("StreamProto", "StreamProto_base.cfg", timeout=900, deadlock=False,
+                      overrides={"NEvents": "4"} if thorough else None, name="StreamProto/faithful")
+    for sw, prop in (("M_Recharge", "ChargedRight"), ("M_SignalOnPut", None)):
+        r = ctx.tlc("StreamProto", "StreamProto_base.cfg", timeout=300, deadlock=False, overrides={sw: "FALSE"}, name="StreamProto/mutant-%s" % sw)
+        if r.ok:
+            raise vlib.Infra("spec mutant %s of StreamProto is not rejected: mechanism vacuous" % sw)
     trap = ctx.tlc("EventPoolLowMem", "EventPoolLowMem_trap.cfg", timeout=300, deadlock=False, name="EventPoolLowMem/trap")
     if trap.ok or trap.violated != "NeverLostWakeup":
         raise vlib.Infra("trap property did not produce the lost-wake-up schedule")
